@@ -39,6 +39,7 @@ type c19Env struct {
 	script                    string // per connection attempt: 'f' Connect fails, 'e' exchange fails, 'o' exchange ok; afterwards 'f'
 	ci                        int
 	events                    []string
+	sw                        []bool
 	h                         *c2.VerifC19Session
 	id                        device.ID
 	reply                     []byte
@@ -157,7 +158,10 @@ func (e *c19Env) advance(d time.Duration) {
 
 // cfg.Profile
 func (e *c19Env) Jitter() int8              { return -1 }
-func (e *c19Env) Switch(bool) bool          { return false }
+func (e *c19Env) Switch(b bool) bool {
+	e.sw = append(e.sw, b) // what listen reports to the selector before every connection attempt
+	return false
+}
 func (e *c19Env) Sleep() time.Duration      { return e.pSleep }
 func (e *c19Env) WorkHours() *cfg.WorkHours { return e.pWork }
 func (e *c19Env) KillDate() (time.Time, bool) {
@@ -595,7 +599,11 @@ func (e *c19Env) state(loop bool) string {
 	if loop {
 		cl, sd = e.lastClosing, e.lastShutdown
 	}
-	return fmt.Sprintf("%s | closing=%s shutdown=%s errors=%d draws=%d now=%d", tr, b01(cl), b01(sd), e.h.Errors(), e.di, e.now.UnixNano())
+	sw := ""
+	for _, b := range e.sw {
+		sw += b01(b)
+	}
+	return fmt.Sprintf("%s | closing=%s shutdown=%s errors=%d draws=%d now=%d sw=%s", tr, b01(cl), b01(sd), e.h.Errors(), e.di, e.now.UnixNano(), sw)
 }
 
 // oracle over the observations of one run (wait or loop)
@@ -639,6 +647,16 @@ func c19CheckRun(c *Ctx, l *c19LoopCase, e *c19Env, what string) {
 	}
 	if nShut > 1 {
 		c.Fail("shutdown-twice", "kill:shutdown-connection-twice", what+": more than one shutdown connection", in)
+	}
+	// the selector is told the truth: Switch(e) before attempt k+1 reports a failure iff attempt k
+	// failed (connect error or failed exchange); the first call reports none
+	for k, b := range e.sw {
+		want := k > 0 && k-1 < len(e.conns) && e.conns[k-1].res != 'o'
+		if b != want {
+			c.Fail("switch-report", "switch:failure-misreported:Session.listen",
+				fmt.Sprintf("%s: Switch(%v) before connection attempt %d, but the previous attempt %s", what, b, k+1, map[bool]string{true: "failed", false: "succeeded (or there was none)"}[want]), in)
+			break
+		}
 	}
 }
 
